@@ -354,6 +354,7 @@ func main() {
 	}
 	var evals, carried, bound, absent, rejected int64
 	distinct := map[string]bool{}
+	sampled := map[string]bool{}
 	for i, r := range results {
 		j := jobs[i]
 		s, v := shapes[j.si], vals[j.vi]
@@ -392,8 +393,13 @@ func main() {
 			}
 			run.Report(core.Violation{Class: class, Summary: fmt.Sprintf("shape %s, value %q: %s", s.Name, trunc(v), r.detail), Artefact: artefact{Shape: s.Name, Value: v}})
 		}
-		if i == 0 || i == len(results)/2 || i == len(results)-1 {
-			run.Sample(map[string]any{"shape": s.Name, "value": trunc(v), "verdict": r.verdict, "cypher": trunc(s.text(v))})
+		if !sampled[s.Position+r.verdict] && len(v) > 0 && len(v) < 20 {
+			sampled[s.Position+r.verdict] = true
+			verdict := r.verdict
+			if verdict == "" {
+				verdict = "value in one delimited token"
+			}
+			run.Sample(map[string]any{"shape": s.Name, "position": s.Position, "value": v, "verdict": verdict, "cypher": s.text(v)})
 		}
 	}
 	run.Add("evaluations", evals)
@@ -462,4 +468,3 @@ func trunc2(s string) string {
 	}
 	return s
 }
-
